@@ -1,13 +1,32 @@
 package values
 
 import (
+	"cmp"
 	"reflect"
 )
 
-var (
-	int64Type   = reflect.TypeOf(int64(0))
-	float64Type = reflect.TypeOf(float64(0))
-)
+var float64Type = reflect.TypeOf(float64(0))
+
+// compareInts orders two integers of any width and signedness by their numeric value.
+// (Converting both to int64 would turn an unsigned value above the int64 range into a negative one.)
+func compareInts(a, b reflect.Value) int {
+	switch {
+	case a.CanUint() && b.CanUint():
+		return cmp.Compare(a.Uint(), b.Uint())
+	case a.CanUint():
+		if b.Int() < 0 {
+			return 1
+		}
+		return cmp.Compare(a.Uint(), uint64(b.Int()))
+	case b.CanUint():
+		if a.Int() < 0 {
+			return -1
+		}
+		return cmp.Compare(uint64(a.Int()), b.Uint())
+	default:
+		return cmp.Compare(a.Int(), b.Int())
+	}
+}
 
 // Equal returns a bool indicating whether a == b after conversion.
 func Equal(a, b any) bool { //nolint: gocyclo
@@ -31,7 +50,7 @@ func Equal(a, b any) bool { //nolint: gocyclo
 		return ra.Bool() == rb.Bool()
 	case reflect.Int, reflect.Int8, reflect.Int16, reflect.Int32, reflect.Int64,
 		reflect.Uint, reflect.Uint8, reflect.Uint16, reflect.Uint32, reflect.Uint64:
-		return ra.Convert(int64Type).Int() == rb.Convert(int64Type).Int()
+		return compareInts(ra, rb) == 0
 	case reflect.Float32, reflect.Float64:
 		return ra.Convert(float64Type).Float() == rb.Convert(float64Type).Float()
 	case reflect.String:
@@ -67,7 +86,7 @@ func Less(a, b any) bool {
 		return !ra.Bool() && rb.Bool()
 	case reflect.Int, reflect.Int8, reflect.Int16, reflect.Int32, reflect.Int64,
 		reflect.Uint, reflect.Uint8, reflect.Uint16, reflect.Uint32, reflect.Uint64:
-		return ra.Convert(int64Type).Int() < rb.Convert(int64Type).Int()
+		return compareInts(ra, rb) < 0
 	case reflect.Float32, reflect.Float64:
 		return ra.Convert(float64Type).Float() < rb.Convert(float64Type).Float()
 	case reflect.String:
